@@ -56,6 +56,15 @@ CHECKS["C13"] = dict(
    note="Trusted: Coq kernel+vm_compute; hand transcription in Cfg/Model.v; gen/tablegen.py translator (cross-checked by the supports= canaries); "
         "python presence/name parsers; demo_gen observed at method level only; rename observed in cpp/js/dart/nanobind.",
    design="§5 C13")
+CHECKS["C06"] = dict(
+   text="Proof: Rename/Model.v transcribes abi_rename pattern application and inheritance (module > impl > method; module > type for destructors), the set "
+        "gen_bridge exports and the set a backend refers to (methods/destructors present for it, via Cfg/Model.v); C06_apply_subst_first / "
+        "C06_apply_no_placeholder (pattern language, all strings), C06_innermost, C06_referenced_subset_exported (all modules, backends, placements). "
+        "Tied to the code by generated bridges compiled with the real macro: nm of the crate's archive member and the symbols parsed from every "
+        "backend's output must equal the model's sets (kernel-checked set equality per bridge and backend).",
+   note="Trusted: Coq kernel+vm_compute; hand transcription; python symbol parsers (C prototypes, extern blocks, wasm.<sym>, Dart symbol:, JNA interfaces); "
+        "nm; gen/Tables.v translator.",
+   design="§5 C06")
 NOT_YET = {
 }
 ALL = [f"C{i:02d}" for i in range(1, 18)]
